@@ -4,6 +4,8 @@ import Nstd.Json.LemmasRT
 import Nstd.Json.LemmasAgree
 import Nstd.Json.LemmasTokInv
 import Nstd.Json.LemmasBytes
+import Nstd.Json.LemmasRfcOut
+import Nstd.Json.LemmasNum
 /-
   Property C15 (JSON: total, safe, round trip; stripComments removes exactly the comments).
   Only the property theorems and their non-vacuity examples live here.
@@ -102,10 +104,138 @@ theorem roundtrip (v : Val) (h : wf v) :
 theorem roundtrip_exact (v : Val) (h : wf v) (hn : norm v = v) : parse (toString v ++ [0]) = .ok v := by
   rw [roundtrip_norm v h, hn]
 
-/-- in particular the text written by `toString` is accepted by `parse` (this, not RFC validity, is
-    what is proved about the serialiser; validity for Python's `json.loads` is tested by the check) -/
+/-- in particular the text written by `toString` is accepted by `parse` -/
 theorem toString_accepted (v : Val) (h : wf v) : ∃ v', parse (toString v ++ [0]) = .ok v' :=
   ⟨norm v, roundtrip_norm v h⟩
+
+/-! ## RFC 8259
+
+  `Nstd/Json/Rfc.lean` is a declarative grammar of RFC 8259 over byte strings (`Rfc.Text t tr`: the text
+  `t` is a JSON-text with syntax tree `tr`); it imports nothing and is not the model of the nstd parser.
+  `RfcSem.lean` says what a syntax tree means as a Variant (`interp`, partial: a high surrogate escape
+  that is not followed by a low surrogate escape has no meaning). -/
+
+/-- the serialiser writes RFC 8259 JSON: for every tree of the property the text of `Json::toString`
+    is a JSON-text of the grammar; `treeOf v` is its syntax tree (strings: `\u00XX` for the control
+    characters without a two-character escape, the RFC's two-character escapes, every other byte raw) -/
+theorem toString_is_rfc8259 (v : Val) (h : wf v) : Rfc.Text (toString v) (treeOf v) :=
+  toString_rfc v h
+
+/-- the parser accepts RFC 8259: every JSON-text whose syntax tree has a meaning is parsed
+    successfully and the result IS that meaning (strings decoded per section 7 with surrogate pairs
+    to UTF-8 as specified for C18, objects built with `HashMap::append`, numbers by `numVal`, see
+    `number_token_value`).  No bound on size or depth. -/
+theorem accepts_rfc (t : List Byte) (tr : Rfc.Tree) (v : Val) (h : Rfc.Text t tr) (hv : interp tr = some v) :
+    parse (t ++ [0]) = .ok v :=
+  accepts_text h hv
+
+/-- strings: a string token of the grammar whose items decode (`decodeItems`: bytes, two-character escapes,
+    `\uXXXX` of every BMP value incl. lone low surrogates as UTF-8, surrogate pairs as the UTF-8 of the
+    combined code point) is read as exactly those bytes, wherever it stands; `decodeItems` is `none` only
+    for a high surrogate escape that is not followed by a low surrogate escape -/
+theorem string_token_decodes (t : List Byte) (is : List Rfc.Item) (bs : List Byte) (h : Rfc.Str t is)
+    (hd : decodeItems is = some bs) (line : Nat) (rest : List Byte) :
+    readToken line (t ++ rest) = .ok ⟨34, .str bs, line, rest⟩ :=
+  tok_rfc_str h hd line rest
+
+/-- the model's `Unicode::append` (shifts and masks) is the RFC 3629 encoding specified arithmetically
+    for property C18 (`Nstd.Codec.Spec.utf8`; `Nstd.Codec.utf8_agrees` ties that to Unicode.hpp), for
+    every code point incl. the surrogate range (generalized three byte form) -/
+theorem unicode_escape_is_utf8 (ch : Nat) (h : ch < 0x110000) : utf8 ch = Nstd.Codec.Spec.utf8 ch :=
+  utf8_eq_spec ch h
+
+/-- the surrogate tests of the tokenizer are the ranges D800..DBFF and DC00..DFFF, and the pair
+    arithmetic is the UTF-16 formula, for all 16-bit code units -/
+theorem surrogate_logic (w1 w2 : Nat) (h1 : w1 < 65536) (h2 : w2 < 65536) :
+    ((w1 &&& 0xF800 = 0xD800 ∧ w1 &&& 0xFC00 = 0xD800) ↔ (0xD800 ≤ w1 ∧ w1 < 0xDC00)) ∧
+    ((w2 &&& 0xFC00 = 0xDC00) ↔ (0xDC00 ≤ w2 ∧ w2 < 0xE000)) ∧
+    ((0xD800 ≤ w1 ∧ w1 < 0xDC00) → (0xDC00 ≤ w2 ∧ w2 < 0xE000) →
+      ((w2 &&& 0x3FF) ||| ((w1 &&& 0x3FF) <<< 10)) + 0x10000 = 0x10000 + (w1 - 0xD800) * 0x400 + (w2 - 0xDC00)) := by
+  refine ⟨?_, ?_, ?_⟩
+  · rw [high_iff w1 h1]; simp [isHighSur]
+  · rw [low_iff w2 h2]; simp [isLowSur]
+  · intro a b
+    exact pair_eq w1 w2 (by simp [isHighSur]; omega) (by simp [isLowSur]; omega)
+
+/-- a `\uD800`..`\uDBFF` escape followed by anything but a backslash is a syntax error reported at the
+    byte behind the escape (the one restriction of nstd against the RFC grammar) -/
+theorem lone_high_surrogate_rejected (f line : Nat) (acc : List Byte) (a b c d x : Byte) (X : List Byte)
+    (ha : Rfc.isHex a) (hb : Rfc.isHex b) (hc : Rfc.isHex c) (hd : Rfc.isHex d)
+    (hw : isHighSur (((hexVal a * 16 + hexVal b) * 16 + hexVal c) * 16 + hexVal d) = true) (hx : x ≠ 92) :
+    readStr (f + 1) line acc (92 :: 117 :: a :: b :: c :: d :: x :: X) = .fail line (x :: X) :=
+  lone_high_rejected f line acc a b c d x X ha hb hc hd hw hx
+
+/-! ### numbers: token, kind and value (all tokens, not only RFC numbers) -/
+
+/-- the number branch: any run of bytes of `0-9 e E + - .` that starts with `-` or a digit and is
+    followed by a byte outside that alphabet is ONE token `#`; it is a double exactly when it contains
+    a decimal point (then its value is opaque), else `numVal` decides int / int64 -/
+theorem number_token (d : Byte) (ds : List Byte) (hch : ∀ x ∈ d :: ds, NumCh x) (hd : d = 45 ∨ isDigit d = true)
+    (line : Nat) (c : Byte) (r : List Byte) (hc : NumStop c) :
+    readToken line ((d :: ds) ++ c :: r) = .ok ⟨35, numVal (d :: ds) ((d :: ds).contains 46), line, c :: r⟩ :=
+  tok_num_any d ds hch hd line c r hc
+
+/-- the value of EVERY token without a decimal point: optional minus, then the digits up to the first
+    non-digit (the `tail`: an exponent, a second sign, nothing) are read as a decimal number, saturated
+    at the int64 range (`atoll` = glibc `strtoll`), and stored as `int` exactly when it fits 32 bits.
+    All digit strings: no bound on the length (beyond int64 the code saturates). -/
+theorem number_token_value (neg : Bool) (ds tail : List Byte) (hds : ∀ d ∈ ds, isDigit d = true)
+    (htail : ∀ c r, tail = c :: r → isDigit c = false) (hstart : neg = true ∨ ds ≠ []) :
+    numVal ((if neg then [45] else []) ++ ds ++ tail) false
+      = intVal (clamp64 (if neg then -(digitsVal ds : Int) else (digitsVal ds : Int))) := by
+  rw [numVal_int, atoll_token neg ds tail hds htail hstart]
+
+/-- hence an exponent without a decimal point is ignored (`1e5` is the int 1): a deviation from the
+    RFC meaning that the code has (observed, outside C15) -/
+theorem number_token_exp_ignored (ds e : List Byte) (hds : ∀ d ∈ ds, isDigit d = true) (hne : ds ≠ []) :
+    numVal (ds ++ 101 :: e) false = numVal ds false := by
+  have h1 := number_token_value false ds (101 :: e) hds (by intro c r h; cases h; decide) (Or.inr hne)
+  have h2 := number_token_value false ds [] hds (by intro c r h; cases h) (Or.inr hne)
+  simp only [Bool.false_eq_true, if_false, List.nil_append, List.append_nil] at h1 h2
+  rw [h1, h2]
+
+example : numVal [50, 49, 52, 55, 52, 56, 51, 54, 52, 56] false = .int64 2147483648 := by rfl
+example : numVal [45, 50, 49, 52, 55, 52, 56, 51, 54, 52, 56] false = .int (-2147483648) := by rfl
+example : digitsVal [48, 48, 55] = 7 := by decide
+
+/-! ### what nstd accepts beyond RFC 8259, and the one thing it rejects (witnesses; Python's
+    `json.loads` rejects each of the accepted ones, which the correspondence run checks) -/
+
+-- leading zeros `007`
+example : parse [48, 48, 55, 0] = .ok (.int 7) := by rfl
+-- exponent without fraction `1e5` is the int 1 (RFC: 100000)
+example : parse [49, 101, 53, 0] = .ok (.int 1) := by rfl
+-- malformed numbers are one token: `1-2` is 1, `-` is 0, `1.2.3` is a double
+example : parse [49, 45, 50, 0] = .ok (.int 1) := by rfl
+example : parse [45, 0] = .ok (.int 0) := by rfl
+example : parse [49, 46, 50, 46, 51, 0] = .ok (.dbl [49, 46, 50, 46, 51]) := by rfl
+-- beyond int64 the value saturates: `9223372036854775808`
+example : parse [57, 50, 50, 51, 51, 55, 50, 48, 51, 54, 56, 53, 52, 55, 55, 53, 56, 48, 56, 0]
+    = .ok (.int64 9223372036854775807) := by rfl
+-- trailing commas `[1,]` and `{"a":1,}`
+example : parse [91, 49, 44, 93, 0] = .ok (.list [.int 1]) := by rfl
+example : parse [123, 34, 97, 34, 58, 49, 44, 125, 0] = .ok (.map [([97], .int 1)]) := by rfl
+-- raw control characters in a string: `"a` LF `b"`
+example : parse [34, 97, 10, 98, 34, 0] = .ok (.str [97, 10, 98]) := by rfl
+-- unknown escape `"\x"` keeps the backslash
+example : parse [34, 92, 120, 34, 0] = .ok (.str [92, 120]) := by rfl
+-- vertical tab and form feed are white space
+example : parse [11, 12, 49, 0] = .ok (.int 1) := by rfl
+-- text behind the value is only tokenised one token ahead: `1 2` and `[] ]` are accepted, `1 x` is not
+example : parse [49, 32, 50, 0] = .ok (.int 1) := by rfl
+example : parse [91, 93, 32, 93, 0] = .ok (.list []) := by rfl
+example : parse [49, 32, 120, 0] = .err 1 3 := by rfl
+-- a lone LOW surrogate escape `"\udc00"` is encoded like a BMP character (RFC: unpredictable)
+example : parse [34, 92, 117, 100, 99, 48, 48, 34, 0] = .ok (.str [0xED, 0xB0, 0x80]) := by rfl
+-- REJECTED although in the RFC grammar: a lone HIGH surrogate escape `"\ud800"`
+example : parse [34, 92, 117, 100, 56, 48, 48, 34, 0] = .err 1 8 := by rfl
+-- repeated member names `{"a":1,"b":2,"a":3}`: first position, last value (RFC: unspecified)
+example : parse [123, 34, 97, 34, 58, 49, 44, 34, 98, 34, 58, 50, 44, 34, 97, 34, 58, 51, 125, 0]
+    = .ok (.map [([97], .int 3), ([98], .int 2)]) := by rfl
+-- non-vacuity of `accepts_rfc`: the surrogate pair `"\ud83d\ude00"` is U+1F600 in UTF-8
+example : decodeItems [.unit 0xD83D, .unit 0xDE00] = some [0xF0, 0x9F, 0x98, 0x80] := by decide
+example : interp (.obj [([.byte 97], .num [49]), ([.byte 97], .arr [.null])]) = some (.map [([97], .list [.null])]) := by
+  rfl
 
 /-! Bytes are `Nat` in the model (notation `Byte`), so all theorems of this file quantify over a
     superset of the byte strings and hold in particular for every list of numbers < 256; no statement
